@@ -3,7 +3,7 @@ _ANCHORS = ["src/hgraph/types/time_series/ts_delta.cpp", "include/hgraph/types/t
             "src/hgraph/types/metadata/ts_data_fixed_structured_ops.cpp", "src/hgraph/types/metadata/ts_data_dynamic_list_ops.cpp",
             "src/hgraph/types/metadata/ts_data_window_ops.cpp"]
 _SHAPES = ("shapes {TS<int>, TSS<int>, TSD<int,TS<int>>, TSL<TS<int>,2>, TSB{a:TS<int>,s:TSS<int>}, TSD<int,TSS<int>>, TSB{d:TSD<int,TS<int>>,x:TS<int>}, "
-           "TSW<int,2,1>, dynamic TSL<TS<int>>} (enumerated)")
+           "TSW<int,2,1>, dynamic TSL<TS<int>>, TSW<int,3,2> (invalid below two elements)} (enumerated)")
 _OUTSIDE = ("more cycles / primitives per cycle / keys; element types other than int; SIGNAL and REF shapes; invalidation of a valid output; TSW clear ticks "
             "(documented as not representable); TSD keys created without ticking their element; deeper nesting than 2; whole-value writes (copy_value_from) on collections; "
             "table / Arrow / data-frame recorders and durable stores")
@@ -14,7 +14,8 @@ reg("C20",
     quick=dict(defs=dict(NCYC=3, NPRIM=2, NPRIM5=1, NKEYS=2), symx=dict(shards=16, **{"max-wall": 2400, "shard-depth": 3})),
     thorough=dict(defs=dict(NCYC=4, NPRIM=2, NPRIM5=1, NKEYS=2), symx=dict(shards=16, **{"max-wall": 3000, "shard-depth": 3})),
     reach=["end", "two_ticks", "gap_then_tick", "key_removed", "key_removed_and_readded_same_cycle", "key_added_and_removed_same_cycle",
-           "empty_structural_tick", "child_only_tick", "class_empty_delta_on_valid_collection", "class_unticked_collection_field"],
+           "empty_structural_tick", "child_only_tick", "class_empty_delta_on_valid_collection", "class_unticked_collection_field",
+           "window_push_below_min_period_recorded"],
     bounds="unit level, no graph: two real TSOutputs A (original) and B (copy) of one schema from " + _SHAPES + ", each observed through a bound TSInput; NCYC cycles at "
            "consecutive engine times; per cycle A is mutated through the producer API: TS leaves / window pushes tick or not with symbolic payloads in [-1000,1000]; "
            "root-level TSS / TSD get up to NPRIM primitives from {add k, remove k, touch} / {upsert k (element ticks), erase k, touch} over keys {1..NKEYS} (no-op adds / "
@@ -51,7 +52,8 @@ reg("C20",
     anchor_files=_GRAPH_ANCHORS,
     quick=dict(defs=dict(NCYC=3, NPRIM=1, NPRIM5=1, NKEYS=2), symx=dict(shards=16, **{"max-wall": 2400, "shard-depth": 3})),
     thorough=dict(defs=dict(NCYC=3, NPRIM=2, NPRIM5=1, NKEYS=2), symx=dict(shards=16, **{"max-wall": 3000, "shard-depth": 3})),
-    reach=["end", "two_ticks", "gap_then_tick", "key_removed", "child_only_tick", "empty_structural_tick", "class_empty_delta_on_valid_collection"],
+    reach=["end", "two_ticks", "gap_then_tick", "key_removed", "child_only_tick", "empty_structural_tick", "class_empty_delta_on_valid_collection",
+           "window_push_below_min_period_recorded"],
     bounds=_GRAPH_BOUNDS,
     outside=_OUTSIDE + "; sparse (absolute-time) recording and replay with a recordable_id; compare; the record / replay operator front door (wire<stdlib::record>)",
     assumptions=["replay_impl / dense_record_impl are wired directly as static nodes (wire<stdlib::replay_impl, S>), not through the operator registry; "
